@@ -11,6 +11,7 @@ mod guard_gen;
 mod containers;
 mod query_engine;
 mod sched;
+mod serde_engine;
 mod sched_borrow;
 mod sched_reserve;
 mod util;
@@ -71,6 +72,7 @@ fn main() {
                 Some("query") => world_engine::Profile::Query,
                 Some("containers") => world_engine::Profile::Containers,
                 Some("tracker") => world_engine::Profile::Tracker,
+                Some("serde") => world_engine::Profile::Serde,
                 _ => world_engine::Profile::Mixed,
             };
             let out = arg(&args, "--out").expect("--out DIR");
@@ -83,7 +85,8 @@ fn main() {
                 let hseed = seed.wrapping_mul(1_000_003).wrapping_add(k as u64);
                 let mut g = world_engine::Gen::new(hseed, profile);
                 let l = len / 2 + g.rng.below(len + 1);
-                let nworlds = if profile != world_engine::Profile::Tracker && g.rng.chance(35) { 2 } else { 1 };
+                let single = matches!(profile, world_engine::Profile::Tracker | world_engine::Profile::Serde);
+                let nworlds = if !single && g.rng.chance(35) { 2 } else { 1 };
                 writeln!(trace, "history world {}", hseed).unwrap();
                 writeln!(ops, "history world {}", hseed).unwrap();
                 trace.flush().unwrap();
